@@ -527,12 +527,41 @@ func generateKeyPairRule(P *Program, R *Report) {
 		R.decide(rule, kGenKey+":"+name+":x-range", "2 < x < N was tested", lo.Holds && hi.Holds, lo.Path+hi.Path, P.Pos(expCall.Pos()))
 	}
 	var zExp, rExp *ssa.Call
+	// the list that becomes pk.R (filled in place, or built as a local and assigned afterwards)
+	var rList ssa.Value
+	for _, s := range sinksOf(fn) {
+		if s.target == "new:gabikeys.PublicKey.R" {
+			rList = s.val
+			if ct, ok := rList.(*ssa.ChangeType); ok {
+				rList = ct.X
+			}
+		}
+	}
+	filesIntoR := func(c *ssa.Call) bool {
+		if _, isMake := rList.(*ssa.MakeSlice); !isMake {
+			return false
+		}
+		for _, r := range referrersOf(c) {
+			if st, ok := r.(*ssa.Store); ok && st.Val == ssa.Value(c) {
+				if ia, ok := st.Addr.(*ssa.IndexAddr); ok {
+					x := ia.X
+					if ct, ok := x.(*ssa.ChangeType); ok {
+						x = ct.X
+					}
+					if x == rList {
+						return true
+					}
+				}
+			}
+		}
+		return false
+	}
 	allInstrs(fn, func(i ssa.Instruction) {
 		c, ok := i.(*ssa.Call)
 		if !ok || bigMethod(c) != "Exp" {
 			return
 		}
-		if strings.Contains(desc(callArgs(c)[0]), ".R[") {
+		if strings.Contains(desc(callArgs(c)[0]), ".R[") || filesIntoR(c) {
 			rExp = c
 		} else {
 			// stored to Z?
